@@ -94,6 +94,40 @@ EmitHash(p) ==
     LET base == IF v.why \in {"piece moved", "piece kind replaced"} THEN [p EXCEPT !.castle = {}, !.ep = 0] ELSE p IN
     PrintT(<<"GEN", ToJson([p |-> ToFen(base), q |-> ToFen(v.q), rel |-> v.rel, why |-> v.why])>>)
 
+\* ---- mutation model for malformed text (C14): operates on code-point sequences ----------------
+\* special code points: digits, separators, letters that mean something, multi-byte characters
+Specials == {48, 56, 57, 47, 32, 45, 120, 61, 43, 35, 79, 75, 107, 119, 98, 233, 9818, 1632, 8195, 65533, 0, 10}
+Flood(c, n) == [i \in 1..n |-> c]
+DropAt(s, i) == SubSeq(s, 1, i - 1) \o SubSeq(s, i + 1, Len(s))
+DupAt(s, i) == SubSeq(s, 1, i) \o SubSeq(s, i, Len(s))
+SetAt(s, i, c) == [s EXCEPT ![i] = c]
+InsAt(s, i, t) == SubSeq(s, 1, i - 1) \o t \o SubSeq(s, i, Len(s))
+SwapAt(s, i) == IF i < Len(s) THEN [s EXCEPT ![i] = s[i + 1], ![i + 1] = s[i]] ELSE s
+\* fields of a space-separated text
+RECURSIVE Fields(_)
+Fields(s) == IF s = <<>> THEN << <<>> >>
+             ELSE LET sp == { i \in 1..Len(s) : s[i] = 32 } IN
+                  IF sp = {} THEN <<s>> ELSE LET i == CHOOSE x \in sp : \A y \in sp : x <= y IN <<SubSeq(s, 1, i - 1)>> \o Fields(SubSeq(s, i + 1, Len(s)))
+RECURSIVE Join(_)
+Join(fs) == IF fs = <<>> THEN <<>> ELSE IF Len(fs) = 1 THEN fs[1] ELSE fs[1] \o <<32>> \o Join(Tail(fs))
+FieldMutations(s) ==
+  LET fs == Fields(s) n == Len(fs) IN
+  { Join(SubSeq(fs, 1, i - 1) \o SubSeq(fs, i + 1, n)) : i \in 1..n }                         \* drop a field
+  \cup { Join(SubSeq(fs, 1, i) \o SubSeq(fs, i, n)) : i \in 1..n }                              \* duplicate a field
+  \cup { Join([fs EXCEPT ![i] = fs[j], ![j] = fs[i]]) : i \in 1..n, j \in 1..n }                 \* swap two fields
+  \cup { Join([fs EXCEPT ![i] = t]) : i \in 1..n, t \in { Flood(57, 25), Flood(56, 32), Flood(49, 70), <<>>, <<45>>, <<45, 49>>,
+                                                           <<49, 56, 52, 52, 54, 55, 52, 52, 48, 55, 51, 55, 48, 57, 53, 53, 49, 54, 49, 54>> } }   \* 2^64, floods, empty
+SingleMutations(s) ==
+  { DropAt(s, i) : i \in 1..Len(s) } \cup { DupAt(s, i) : i \in 1..Len(s) } \cup { SwapAt(s, i) : i \in 1..Len(s) }
+  \cup { SetAt(s, i, c) : i \in 1..Len(s), c \in Specials } \cup { InsAt(s, i, <<c>>) : i \in 1..(Len(s) + 1), c \in {56, 47, 32, 233, 9818} }
+  \cup { SubSeq(s, 1, i) : i \in 0..Len(s) } \cup { InsAt(s, i, Flood(56, 32)) : i \in {1, Len(s) + 1} \cup { j \in 1..Len(s) : s[j] = 47 } }
+EmitMut(e) ==
+  LET base == e.cps
+      ms == SingleMutations(base) \cup FieldMutations(base)
+      \* a strided sample of double mutations
+      dbl == UNION { { DropAt(m, (Len(m) % 7) + 1), SetAt(m, IF Len(m) = 0 THEN 1 ELSE (Len(m) % 5) + 1, 9818) } : m \in { x \in ms : Len(x) > 8 /\ (Len(x) + x[3]) % Stride = Phase } }
+  IN \A m \in ms \cup dbl \cup {base} : PrintT(<<"GEN", ToJson([kind |-> e.kind, cps |-> m])>>)
+
 \* ---- driver ---------------------------------------------------------------
 Init == /\ l = 1
         /\ CASE Mode = "amb" -> AmbPos(pos) /\ LegalPosition(pos)
@@ -106,5 +140,7 @@ Next ==
                         /\ (IF Rec[l].ev = "Move" /\ (l % Stride) = Phase /\ LegalPosition(Norm(Rec[l].next)) THEN EmitHash(Norm(Rec[l].next)) ELSE TRUE)
     [] Mode = "fen" -> /\ l <= Len(FenSeq) /\ l' = l + 1 /\ UNCHANGED pos
                        /\ (IF (l % Stride) = Phase THEN EmitFen(FenSeq[l]) ELSE TRUE)
+    [] Mode = "mutate" -> /\ l <= Len(Rec) /\ l' = l + 1 /\ UNCHANGED pos
+                          /\ (IF Rec[l].ev = "Base" THEN EmitMut(Rec[l]) ELSE TRUE)
     [] Mode = "amb" -> /\ l = 1 /\ l' = 2 /\ UNCHANGED pos /\ EmitSan(pos)
 =============================================================================
